@@ -563,15 +563,18 @@ func checkC20Titles(c *Ctx) {
 		return
 	}
 	// table entries: MapUpdate with constant key and a struct value whose Title is a constant string
-	entries, empty := 0, 0
+	entries, empty, nonConst := 0, 0, 0
+	tableMaps := map[ssa.Value]bool{}
 	eachInstr(fn, func(ins ssa.Instruction) {
 		mu, ok := ins.(*ssa.MapUpdate)
 		if !ok {
 			return
 		}
 		entries++
+		tableMaps[mu.Map] = true
 		title, ok := structFieldConst(mu.Value, 0)
 		if !ok {
+			nonConst++
 			c.Fail("C20-T9", "title-table:nonconst", mu.Pos(), "unproven", "title table entry is not a constant struct literal")
 			return
 		}
@@ -628,6 +631,19 @@ func checkC20Titles(c *Ctx) {
 			for _, f := range dominatingFacts(r.Block()) {
 				if titleNonEmpty(f, titleF) {
 					guarded = true
+				}
+			}
+			if !guarded && empty == 0 && nonConst == 0 {
+				// `v, present := table[k]` taken only when present: every entry of the table has a
+				// non-empty constant title (counted above), so presence implies a title
+				if ex, ok := whole.(*ssa.Extract); ok && ex.Index == 0 {
+					if lk, ok := ex.Tuple.(*ssa.Lookup); ok && lk.CommaOk && tableMaps[lk.X] {
+						for _, f := range dominatingFacts(r.Block()) {
+							if e2, ok := f.Cond.(*ssa.Extract); ok && e2.Tuple == ex.Tuple && e2.Index == 1 && f.Val {
+								guarded = true
+							}
+						}
+					}
 				}
 			}
 			c.Check(guarded, "C20-T9", "title:table-hit", r.Pos(), "table entry returned only when its title is non-empty",
